@@ -192,9 +192,14 @@ func (g *ExecutionGraph) setupRetry() error {
 		var next []int
 		for _, u := range frontier {
 			// A node recorded as running was interrupted (its process was
-			// killed): it did not complete, so it is executed again.
+			// killed): it did not complete, so it is executed again. A node
+			// recorded as not started may have been interrupted between two
+			// attempts, and the last record of a killed run is not an atomic
+			// snapshot: it starts from a clean state too, and so does
+			// everything downstream of it.
 			if retry[u] || dict[u] == NodeStatusError ||
-				dict[u] == NodeStatusCancel || dict[u] == NodeStatusRunning {
+				dict[u] == NodeStatusCancel || dict[u] == NodeStatusRunning ||
+				dict[u] == NodeStatusNone {
 				g.logger.Info("clear node state", "step", g.dict[u].data.Step.Name)
 				g.dict[u].clearState()
 				retry[u] = true
